@@ -36,6 +36,44 @@ KINDS = {
 }
 NAMES = {"AId": ["a", "A", "b", "Ab", "aB"], "AType": ["t", "T", "u", "tU", "Tu"], "AName": ["n", "N", "m", "nM", "Nm"]}
 GENPFX = "generated_submodel_list_hack_"
+# new values for a rename that the syntax checks refuse (empty, too long, control character; for an idShort also
+# AASd-002: leading digit, '-'), or accept although unusual (tab) - rename op argument ["bad", j]
+BAD = ["", "x" * 129, "a\x01b", "1a", "a-b", "a\tb"]
+
+
+class FailingIterable(Exception):
+    pass
+
+
+def lazy(items, fails):
+    """what a caller's generator / parser looks like: yields the items, then (fails) raises"""
+    if not fails:
+        return items
+
+    def gen():
+        for x in items:
+            yield x
+        raise FailingIterable("the iterable failed while it was consumed")
+    return gen()
+
+
+def coq_str_any(t):
+    """Coq string term, control characters spelled with ascii_of_nat"""
+    if all(32 <= ord(ch) < 127 for ch in t):
+        return coq_str(t)
+    parts, cur = [], ""
+    for ch in t:
+        if 32 <= ord(ch) < 127:
+            cur += ch
+        else:
+            assert ord(ch) < 128
+            if cur:
+                parts.append(coq_str(cur))
+                cur = ""
+            parts.append(f'(String (Ascii.ascii_of_nat {ord(ch)}) "")')
+    if cur:
+        parts.append(coq_str(cur))
+    return "(" + " ++ ".join(parts) + ")%string"
 
 
 def _sdk():
@@ -113,9 +151,10 @@ class Ctx:
         return -8
 
     # -- construction of an owner with initial collections
-    def construct(self, o, ordered, lc, itemss):
+    def construct(self, o, ordered, lc, itemss, fails=None):
         model = _sdk()
-        items = [[self.pool[e] for e in es] for es in itemss]
+        fails = fails or [False] * len(itemss)
+        items = [lazy([self.pool[e] for e in es], f) for es, f in zip(itemss, fails)]
         k = self.kind
         if k.startswith("toy"):
             ToyId, ToyQ = _toy_classes()
@@ -183,11 +222,13 @@ def exc_code(e):
         return [1]
     if isinstance(e, TypeError):
         return [4]
+    if isinstance(e, FailingIterable):
+        return [5]
     return [98]
 
 
 ORDERED_ONLY = {"popat", "insert", "setitem", "setslice", "delitem", "delslice", "setvalue",
-                "xsetslice", "xdelslice", "append", "extend", "reverse", "iadd"}
+                "xsetslice", "xdelslice", "xinsert", "append", "extend", "reverse", "iadd"}
 
 
 def apply_op(ctx, op):
@@ -196,10 +237,11 @@ def apply_op(ctx, op):
     name = op[0]
     try:
         if name == "construct":
-            _, o, ordered, lc, itemss = op
+            _, o, ordered, lc, itemss = op[:5]
+            fails = op[5] if len(op) > 5 else None
             known = set(map(id, ctx.owners.values()))
             try:
-                ns = ctx.construct(o, ordered, lc, itemss)
+                ns = ctx.construct(o, ordered, lc, itemss, fails)
             except Exception:
                 # a half-built owner can still be reached through the parent link of its children
                 for x in ctx.pool:
@@ -213,7 +255,9 @@ def apply_op(ctx, op):
         if name in ("rename", "setsem"):
             x = ctx.pool[op[1]]
             if name == "rename":
-                setattr(x, ctx.attr_py, None if op[2] is None else ctx.names[op[2]])
+                nm = op[2]
+                setattr(x, ctx.attr_py, None if nm is None else BAD[nm[1]] if isinstance(nm, (list, tuple))
+                        else ctx.names[nm])
             else:
                 x.semantic_id = _sem(op[2])
             return [0]
@@ -256,6 +300,8 @@ def apply_op(ctx, op):
             del S[op[3]]
         elif name == "delslice":
             del S[op[3]:op[4]]
+        elif name == "xinsert":        # oracle-only stream: an index that is not an int
+            S.insert({"str": "0", "none": None, "float": 1.5}[op[3]], ctx.pool[op[4]])
         elif name == "xsetslice":      # oracle-only stream: extended slices and mixin methods
             S[op[3]:op[4]:op[5]] = [ctx.pool[e] for e in op[6]]
         elif name == "xdelslice":
@@ -449,7 +495,7 @@ def snapshot(ctx):
 
 
 SINGLE = {"add", "remove", "discard", "pop", "popat", "insert", "setitem", "delitem", "rename",
-          "owneradd", "ownerremove", "append"}
+          "owneradd", "ownerremove", "append", "xinsert"}
 
 
 def canon_snapshot(ctx):
@@ -462,6 +508,100 @@ def canon_snapshot(ctx):
     return res
 
 
+def failed_construct_leaks(ctx, op, nbefore):
+    """After a constructor call that raised: the collections it created must not hold children any more (neither the
+    one whose items failed nor the ones created earlier in the same call), whether the namespace object is dead
+    (never returned to the caller) or alive."""
+    o = op[1]
+    res = []
+    if o not in ctx.owners:
+        return res
+    new_sets = ctx.sets_of(o)[nbefore:]
+    for idx, S in enumerate(new_sets):
+        kids = [ctx.eid(x) for x in S]
+        if not kids:
+            continue
+        last = idx == len(new_sets) - 1
+        where = "the collection whose items failed" if last else "a collection created earlier in the same call"
+        if o in ctx.live:
+            res.append(("ghost-child" if last else "ghost-child-earlier-collection",
+                        f"failed constructor call left {where} registered in the live namespace with children {kids}"))
+        else:
+            res.append(("parent-dead" if last else "parent-dead-earlier-collection",
+                        f"constructor raised, but pool elements {kids} stay children of the object that was never "
+                        f"returned ({where})"))
+    return res
+
+
+def ctor_probe():
+    """Directed, model-independent: every class with several child collections, one collection good and another one
+    failing (a refused item / a lazy iterable that raises).  All children handed in must be free afterwards.
+    Returns [(class of failure, message, replay)]."""
+    model = _sdk()
+    Int = model.datatypes.Int
+    ref = model.ModelReference((model.Key(model.KeyTypes.SUBMODEL, "urn:x"),), model.Submodel)
+
+    def kids(kind):
+        if kind == "ref":
+            return [model.Property("a", Int), model.Property("b", Int)], model.Property("a", Int)
+        if kind == "lst":
+            return [model.Property(None, Int), model.Property(None, Int)], model.Property(None, model.datatypes.String)
+        if kind == "q":
+            return [model.Qualifier("t", Int), model.Qualifier("u", Int)], model.Qualifier("t", Int)
+        return [model.Extension("n"), model.Extension("m")], model.Extension("n")
+
+    classes = {
+        "Submodel": (lambda **kw: model.Submodel("urn:p", **kw), {"submodel_element": "ref"}),
+        "SubmodelElementCollection": (lambda **kw: model.SubmodelElementCollection("c", **kw), {"value": "ref"}),
+        "SubmodelElementList": (lambda **kw: model.SubmodelElementList("l", model.Property, value_type_list_element=Int, **kw),
+                                {"value": "lst"}),
+        "Entity": (lambda **kw: model.Entity("e", model.EntityType.CO_MANAGED_ENTITY, **kw), {"statement": "ref"}),
+        "Operation": (lambda **kw: model.Operation("o", **kw),
+                      {"input_variable": "ref", "output_variable": "ref", "in_output_variable": "ref"}),
+        "AnnotatedRelationshipElement": (lambda **kw: model.AnnotatedRelationshipElement("r", ref, ref, **kw),
+                                         {"annotation": "ref"}),
+        "Property": (lambda **kw: model.Property("p", Int, **kw), {}),
+    }
+    out = []
+    for cname, (ctor, own) in classes.items():
+        colls = dict(own, qualifier="q", extension="x")
+        for a in colls:
+            for b in colls:
+                for mode in ("refused", "iterable"):
+                    good, _ = kids(colls[a])
+                    kw = {}
+                    supplied = {}
+                    if a == b:
+                        g, bad = kids(colls[b])
+                        items = g[:1] + ([bad] if mode == "refused" else [])
+                        supplied[b] = items[:1]
+                        kw[b] = items if mode == "refused" else lazy(items, True)
+                    else:
+                        if colls[a] == colls[b] == "ref":
+                            # two idShort collections of one namespace: distinct names in the good one
+                            good = [model.Property("g1", Int), model.Property("g2", Int)]
+                        kw[a] = good
+                        supplied[a] = good
+                        g, bad = kids(colls[b])
+                        items = g[:1] + ([bad] if mode == "refused" else [])
+                        supplied[b] = items[:1]
+                        kw[b] = items if mode == "refused" else lazy(items, True)
+                    try:
+                        ctor(**kw)
+                        continue          # nothing refused (cannot happen with these items)
+                    except Exception:
+                        pass
+                    for coll, xs in supplied.items():
+                        leaked = [x for x in xs if x.parent is not None]
+                        if leaked:
+                            cls = ("ctor:failed-collection-not-rolled-back" if coll == b
+                                   else "ctor:earlier-collection-not-rolled-back")
+                            out.append((cls, f"{cname}({a}=<good>, {b}=<{mode}>) raised, but the children passed as "
+                                             f"{coll} keep a parent link to the object that was never returned",
+                                        {"probe": "ctor", "class": cname, "good": a, "failing": b, "mode": mode}))
+    return out
+
+
 def run_sdk(case, with_trace=True):
     """case = {kind, pool, ops}.  Returns (trace, failures) with failures = [(step, class, message)]."""
     ctx = Ctx(case["kind"], [tuple(p) for p in case["pool"]])
@@ -470,7 +610,11 @@ def run_sdk(case, with_trace=True):
         op = tuple(op)
         before = snapshot(ctx)
         cbefore = canon_snapshot(ctx)
+        nsets_before = len(ctx.sets_of(op[1])) if op[0] == "construct" and op[1] in ctx.owners else 0
         out = apply_op(ctx, op)
+        if op[0] == "construct" and out[0] != 0:
+            for cls, msg in failed_construct_leaks(ctx, op, nsets_before):
+                fails.append((k, f"construct:{cls}", msg))
         if out[0] != 0 and op[0] in SINGLE and snapshot(ctx) != before:
             fails.append((k, f"{op[0]}:not-atomic", f"{op[0]} raised (code {out[0]}) but the namespace or the element changed"))
         if out[0] not in (0, 9) and op[0] in ("extend", "iadd") and snapshot(ctx) != before:
@@ -545,7 +689,15 @@ def gen_case(rng, kind, maxlen, extra=False):
         per = nsets
         sizes = [0, 1, 2, 3, 3, 4] if (ordered or kind.startswith("toy")) else [0, 0, 0, 1, 2, 3]
         itemss = [some(rng.choice(sizes)) for _ in range(per)]
-        return ("construct", o, ordered if not kind.startswith("toy") else rng.random() < 0.7, lc, itemss)
+        # sometimes the caller passes a generator that raises after its items (a parser that fails, ...), preferably
+        # after free, acceptable items so that something has been added before
+        fails = [rng.random() < 0.12 for _ in range(per)]
+        for k_, f in enumerate(fails):
+            if f and rng.random() < 0.7:
+                free = [i for i, y_ in enumerate(ctx.pool) if y_.parent is None]
+                rng.shuffle(free)
+                itemss[k_] = free[:rng.choice([1, 2, 2])]
+        return ("construct", o, ordered if not kind.startswith("toy") else rng.random() < 0.7, lc, itemss, fails)
 
     def do(op):
         ops.append(op)
@@ -603,8 +755,11 @@ def gen_case(rng, kind, maxlen, extra=False):
                 k = max(0, rng.choice([dl - 1, dl - 1, dl, dl + 1]))
                 op = ("xsetslice", o, j, a, b, st, [rng.choice(free) if rng.random() < 0.8 else rng.randrange(n)
                                                     for _ in range(k)])
-            elif y < 0.45:
+            elif y < 0.4:
                 op = ("xdelslice", o, j, a, b, st)
+            elif y < 0.45:
+                free = [i for i, y_ in enumerate(ctx.pool) if y_.parent is None] or list(range(n))
+                op = ("xinsert", o, j, rng.choice(["str", "none", "float"]), rng.choice(free))
             elif y < 0.6:
                 op = ("append", o, j, e)
             elif y < 0.7:
@@ -630,7 +785,9 @@ def gen_case(rng, kind, maxlen, extra=False):
         elif x < 0.41:
             op = ("clear", o, j)
         elif x < 0.55:
-            nm = rng.choice([0, 1, 2, 3, 4, None]) if attr == "AId" else rng.randrange(5)
+            nm = rng.choice([0, 1, 2, 3, 4, None]) if attr == "AId" else rng.choice([0, 1, 2, 3, 4, 0, 1, 2, 3, 4, None])
+            if rng.random() < 0.2:
+                nm = ("bad", rng.randrange(len(BAD)))          # a value the syntax check refuses (mostly)
             # prefer renaming contained elements
             if cont and rng.random() < 0.6:
                 e = rng.choice(cont)
@@ -709,11 +866,16 @@ def coq_op(case, op):
     names = NAMES[attr]
     n = op[0]
     if n == "construct":
-        _, o, ordered, lc, itemss = op
+        _, o, ordered, lc, itemss = op[:5]
+        fails = op[5] if len(op) > 5 else [False] * len(itemss)
         hk = "None" if lc is None else f"(Some (mklcfg {nat(lc[0])} {nat(lc[1])} {onat(lc[2])}))"
-        return f"Construct {nat(o)} {'true' if ordered else 'false'} {hk} {coq_list(natl(es) for es in itemss)}"
+        pairs = coq_list(f"({natl(es)}, {'true' if f else 'false'})" for es, f in zip(itemss, fails))
+        return f"Construct {nat(o)} {'true' if ordered else 'false'} {hk} {pairs}"
     if n == "rename":
-        return f"Rename {nat(op[1])} " + ("None" if op[2] is None else f"(Some {coq_str(names[op[2]])})")
+        nm = op[2]
+        return f"Rename {nat(op[1])} " + ("None" if nm is None else
+                                          f"(Some {coq_str_any(BAD[nm[1]])})" if isinstance(nm, (list, tuple))
+                                          else f"(Some {coq_str(names[nm])})")
     if n == "setsem":
         return f"SetSem {nat(op[1])} {onat(op[2])}"
     if n == "owneradd":
@@ -857,7 +1019,7 @@ def run(chk):
             chk.count("op=" + o[0])
             c = t[0][0]
             chk.count("out=" + ("ok" if c == 0 else {1: "ValueError", 2: "KeyError", 3: "IndexError", 4: "TypeError",
-                                                  9: "no-such-method"}.get(c, f"AASd-{c - 100}" if c >= 100 else "other")))
+                                                  5: "iterable-raised", 9: "no-such-method"}.get(c, f"AASd-{c - 100}" if c >= 100 else "other")))
         if fails:
             k, cls, msg = fails[0]
             sig = signature(case, cls)
@@ -870,6 +1032,13 @@ def run(chk):
         terms.append(coq_case(case, trace))
         if len(chk.samples) < 4 and len(case["ops"]) >= 6 and ci >= ncorpus:
             chk.samples.append({"case": case, "sdk_observation_after_last_call": trace[-1]})
+    # directed constructor probe (all classes with several child collections; model-independent)
+    for cls, msg, rp in ctor_probe():
+        chk.count("ctor_probe_failures")
+        sig = "C01:" + cls
+        if sig not in reported:
+            reported.add(sig)
+            chk.fail(sig, msg, dict(rp, how="tools/c01.py ctor_probe()"))
     # oracle-only stream: calls outside the model (extended slices, mixin methods)
     nx = 600 if chk.tier == "quick" else 6000
     for i in range(nx):
@@ -918,7 +1087,8 @@ def run(chk):
     ]
     chk.assumptions = ["elements have the identifying attribute of the collection they are passed to (typed API)",
                        "all collections of one namespace that share an attribute share the case-sensitivity flag",
-                       "new idShort/type/name values are syntactically valid (the syntax check raises before any state is read)"]
+                       "identifying attribute values are ASCII strings (the syntax checks of new values - length, AASd-130 "
+                       "character class, AASd-002 - are modelled on ASCII)"]
     return chk.finish(level="proof",
                       rule="seeded random histories over 11 namespace kinds (8 SDK kinds + 3 user-defined namespaces "
                            "built from the public NamespaceSet classes), pools of 6 elements with colliding / "
@@ -930,6 +1100,14 @@ def run(chk):
 def replay(path):
     r = json.load(open(path))
     rp = r.get("replay") or {}
+    if rp.get("probe") == "ctor":
+        hits = [x for x in ctor_probe() if x[2]["class"] == rp["class"] and x[2]["good"] == rp["good"]
+                and x[2]["failing"] == rp["failing"] and x[2]["mode"] == rp["mode"]]
+        for h in hits:
+            print("oracle:", h[0], h[1])
+        if not hits:
+            print("oracle: holds")
+        return 1 if hits else 0
     if "case" in rp:
         tr, fails = run_sdk(rp["case"])
         for f in fails[:5]:
